@@ -48,8 +48,8 @@ impl Op {
                     _ => "T::new()",
                 }
             ),
-            Op::Set { slot, f, i, v } => format!("s{slot}.set_{}({}{:#x})", fname(*f), idx(*f, *i), v.0),
-            Op::With { src, dst, f, i, v } => format!("s{dst} = s{src}.with_{}({}{:#x})", fname(*f), idx(*f, *i), v.0),
+            Op::Set { slot, f, i, v } => format!("s{slot}.set_{}({}{:#x})", fname(*f).trim_start_matches("r#"), idx(*f, *i), v.0),
+            Op::With { src, dst, f, i, v } => format!("s{dst} = s{src}.with_{}({}{:#x})", fname(*f).trim_start_matches("r#"), idx(*f, *i), v.0),
             Op::Copy { src, dst } => format!("s{dst} = s{src}"),
             Op::Read { slot, f, i } => format!("s{slot}.{}({})", fname(*f), idx_only(*f, *i)),
             Op::Raw { slot } => format!("s{slot}.raw_value()"),
